@@ -2,9 +2,11 @@
    Carrier of the theorems: exact rationals (instance QC of the carrier-generic model); the generic
    tree theorems hold for every carrier, hence also for the binary64 instance FC that the
    correspondence check runs bit-exactly against the implementation. *)
-From Coq Require Import List Arith ZArith QArith PrimFloat.
+From Coq Require Import List Arith Lia ZArith QArith PrimFloat.
 Import ListNotations.
-From AgileV Require Import C11.Model C11.TreeProofs C11.SumProofs C11.MinProofs C11.RangeProofs C11.PerProofs.
+From AgileV Require Import Base.Prelude.
+From AgileV Require C09.Model.
+From AgileV Require Import C11.Model C11.TreeProofs C11.SumProofs C11.MinProofs C11.RangeProofs C11.PerProofs C11.GenericProofs C11.Joint C11.JointProofs.
 Local Open Scope nat_scope.
 
 (* ---------------------------------------------------------------- the segment trees ------- *)
@@ -105,6 +107,52 @@ Theorem sampled_are_stored : forall powa powb : Q -> Q, (forall x, (0 < x)%Q -> 
 Proof. exact sampled_are_stored_lemma. Qed.
 Print Assumptions sampled_are_stored.
 
+(* ... and the rows behind those indices are stored transitions. The buffer together with its storage
+   (ReplayBuffer.add = the C09 ring buffer, then the priority loop): after any interleaving with
+   batch widths <= max_size, len(buffer) is the ring buffer's size, the slot written next is the leaf
+   written next, and every sampled index addresses a slot holding one of the last
+   min(max_size, k) transitions added since the last clear *)
+Theorem sampled_rows_are_stored : forall (A : Type) (powa : Q -> Q), (forall x, (0 < x)%Q -> (0 < powa x)%Q) ->
+  forall (powb : Q -> Q) m (ops : list (@jop A)) us, 0 < m -> jrun_ok powa m (jinit m) ops ->
+  let '(b, s) := jrun powa m ops in
+  let h := jspec ops in
+  0 < size s -> Forall draw_ok us ->
+  exists idxs ws, per_sample QC powb s us = Some (idxs, ws) /\ length idxs = length us /\
+    Forall (fun i => i < C09.Model.size b /\
+              exists x, nth i (C09.Model.store b) None = Some x /\ In x (lastn (Nat.min (length h) m) h)) idxs.
+Proof. exact @sampled_rows_are_stored_lemma. Qed.
+Print Assumptions sampled_rows_are_stored.
+
+(* ---- what holds in EVERY arithmetic, in particular for the binary64 instance the check runs ---- *)
+(* retrieve never leaves the tree (no rounding can produce an out-of-range index) *)
+Theorem retrieve_in_tree : forall (C : carrier) d l ub r, retrieve C (2 ^ d) l ub = Some r -> r < 2 ^ d.
+Proof. exact GenericProofs.retrieve_in_tree. Qed.
+Print Assumptions retrieve_in_tree.
+
+(* the structural part of the invariant: both trees consistent, capacity 2^d >= max_size, len <= max_size,
+   tree_ptr < max_size, tree_ptr = cursor, tree_ptr = len while not full, leaves >= len are exactly 0 / inf,
+   min-tree leaf = sum-tree leaf below len; no assertion fires *)
+Theorem structure_any_carrier : forall (C : carrier) (powa : C -> C),
+  c_add C (c_zero C) (c_zero C) = c_zero C ->
+  forall m, 0 < m -> forall ops, grun_ok C powa (per_init C m) ops -> gper_inv C (per_run C powa m ops).
+Proof. exact grun_inv. Qed.
+Print Assumptions structure_any_carrier.
+
+(* the binary64 instance FC (the one the correspondence check runs against the implementation)
+   satisfies the hypothesis 0 + 0 = 0, so the structural invariant holds for it. Stated as an Example
+   because it mentions the kernel's primitive floats (listed by Print Assumptions as primitives). *)
+Example structure_binary64 : forall (tab : list (float * float)) m, 0 < m ->
+  forall ops, grun_ok FC (tab_pow tab) (per_init FC m) ops -> gper_inv FC (per_run FC (tab_pow tab) m ops).
+Proof. exact (fun tab => grun_inv FC (tab_pow tab) float_add_zero_zero). Qed.
+
+(* so in binary64 a sampled index is always inside the tree, and it can only be an unstored one if
+   the descent ended in a leaf that is exactly 0 (the named rounding gap, Example retrieve_float_gap) *)
+Theorem sampled_in_tree_any_carrier : forall (C : carrier) (s : per C) us idxs ws powb, gper_inv C s ->
+  per_sample C powb s us = Some (idxs, ws) ->
+  Forall (fun i => i < tcap s /\ (size s <= i -> leaf (c_zero C) (tcap s) (sumt s) i = c_zero C)) idxs.
+Proof. exact gsampled_in_tree. Qed.
+Print Assumptions sampled_in_tree_any_carrier.
+
 (* add(): every new transition gets (highest priority seen so far)^alpha; the maximum is unchanged *)
 Theorem new_gets_max : forall powa : Q -> Q, (forall x, (0 < x)%Q -> (0 < powa x)%Q) ->
   forall s n, per_inv s ->
@@ -146,6 +194,17 @@ Theorem clear_fresh : forall (powa : Q -> Q) m ops1 ops2,
 Proof. exact PerProofs.clear_fresh. Qed.
 Print Assumptions clear_fresh.
 
+(* the pinned (pre-fix e4816a7) clear() violated the property: after clear and one addition the
+   buffer holds 1 transition but sample returns index 3 *)
+Theorem pinned_clear_refuted : exists m ops us idxs,
+  let s := per_run_pinned QC (fun x => x) m ops in
+  option_map fst (per_sample QC Qinv s us) = Some idxs /\ exists i, In i idxs /\ size s <= i.
+Proof.
+  exists 4, [Add 3; Clear; Add 1], [(3 # 4)%Q], [3]. split; [vm_compute; reflexivity|].
+  exists 3. split; [left; reflexivity|vm_compute; lia].
+Qed.
+Print Assumptions pinned_clear_refuted.
+
 (* ---------------------------------------------------------------- non-vacuity, gaps -------- *)
 Definition ex_ops : list (pop QC) :=
   [Add 2; @Update QC [(0, 3%Q); (1, (1 # 1000000)%Q); (0, 7%Q)]; Add 2; @Sample QC [0%Q; (1 # 2)%Q]; Add 1].
@@ -162,6 +221,13 @@ Proof.
   { cbn. repeat split; repeat constructor. }
   split; [exact H|]. split; [apply per_invariant; auto|]. repeat split; vm_compute; reflexivity.
 Qed.
+
+Example joint_nonvacuous :
+  let ops := [JAdd [1; 2]; JUpdate [(0, 3%Q)]; JAdd [3; 4; 5]; JSample [0%Q]] in
+  jrun_ok (fun x => x) 3 (jinit 3) ops /\
+  C09.Model.store (fst (jrun (fun x => x) 3 ops)) = [Some 4; Some 5; Some 3] /\
+  size (snd (jrun (fun x => x) 3 ops)) = 3 /\ jspec ops = [1; 2; 3; 4; 5].
+Proof. cbn. repeat split; repeat constructor. Qed.
 
 Example weight_function_exists : (forall x, (0 < x)%Q -> (0 < / x)%Q) /\
   (forall x y, (0 < x)%Q -> (x <= y)%Q -> (/ y <= / x)%Q).
